@@ -885,6 +885,22 @@ impl<K, V> HashMap<K, V> {
     pub fn capacity(&self) -> (r: usize)
     { unimplemented!() }
     #[verifier::external_body]
+    pub fn new() -> (r: Self)
+        ensures r@ == Map::<K, V>::empty(),
+    { unimplemented!() }
+    #[verifier::external_body]
+    pub fn get(&self, k: &K) -> (r: Option<&V>)
+        ensures (r is Some) == self@.contains_key(*k), r is Some ==> *(r->0) == self@[*k],
+    { unimplemented!() }
+    #[verifier::external_body]
+    pub fn len(&self) -> (r: usize)
+        ensures r == self@.dom().len(),
+    { unimplemented!() }
+    #[verifier::external_body]
+    pub fn is_empty(&self) -> (r: bool)
+        ensures r == (self@.dom().len() == 0),
+    { unimplemented!() }
+    #[verifier::external_body]
     pub fn insert(&mut self, k: K, v: V) -> (r: Option<V>)
         ensures final(self)@ == old(self)@.insert(k, v),
     { unimplemented!() }
